@@ -56,3 +56,39 @@ def stage_factory(corpus_file, pid):
         return m
 
     return pinned_witnesses
+
+
+def hang_stage_factory(corpus_file, pid):
+    """Pinned non-termination witnesses: the real `run` binary on the source; reproduced when it is
+    still running after the witness' budget; signature from the native stack."""
+    import stacksig
+
+    def pinned_hangs(ctx):
+        from concurrent.futures import ThreadPoolExecutor
+
+        with open(os.path.join(D.ROOT, "corpus", corpus_file)) as f:
+            corpus = json.load(f)
+        m = D.empty_merge()
+        wd = os.path.join(ctx["outroot"], "pinned_hangs")
+        os.makedirs(wd, exist_ok=True)
+
+        def one(iw):
+            i, w = iw
+            src = os.path.join(wd, f"h{i}.clsp")
+            with open(src, "w") as f:
+                f.write(w["source"])
+            cmd = [D.repo_bin("run")] + w.get("args", []) + ["--symbol-output-file", os.path.join(wd, f"h{i}.sym"), src]
+            sig, why = stacksig.hang_signature(cmd, D.ENV, wd, settle=w.get("budget_s", 25))
+            return w, sig, why
+
+        with ThreadPoolExecutor(max_workers=4) as ex:
+            for w, sig, why in ex.map(one, enumerate(corpus["witnesses"])):
+                m["counters"]["evaluations"] = m["counters"].get("evaluations", 0) + 1
+                if sig is None:
+                    m["counters"]["pinned.finished"] = m["counters"].get("pinned.finished", 0) + 1
+                else:
+                    m["counters"]["pinned.still_running"] = m["counters"].get("pinned.still_running", 0) + 1
+                    m["violations"].append({"kind": "pinned_witness_does_not_terminate", "sig": sig, "finding": w["finding"], "source": w["source"], "budget_s": w.get("budget_s", 25)})
+        return m
+
+    return pinned_hangs
